@@ -46,7 +46,7 @@ func main() {
 
 	// ---- corpus: one history per special kind, each block connected,
 	// disconnected, connected again (re-inclusion after rollback), disconnected.
-	// "withdraw2" is the witness of the defect repaired by f4d2f2ff.
+	// "withdraw2" is the witness of the defect repaired by 523f0a27.
 	for _, kind := range []string{"withdraw2", "withdraw0", "withdraw1", "retdep", "proposal", "review", "tracking"} {
 		kind := kind
 		history(run, st, sh, next(), rng.Fork(), func(h *ledgerh.H) {
@@ -114,7 +114,7 @@ func main() {
 		}
 		history(run, st, sh, next(), rng.Fork(), func(h *ledgerh.H) { h.StoreRandom(steps) })
 	}
-	st.Sample(map[string]interface{}{"history": 1, "what": "corpus: WithdrawFromSideChain payload V2 connected/disconnected/re-included (Tx3 entry survived the rollback before f4d2f2ff)"})
+	st.Sample(map[string]interface{}{"history": 1, "what": "corpus: WithdrawFromSideChain payload V2 connected/disconnected/re-included (Tx3 entry survived the rollback before 523f0a27)"})
 	st.Traces = st.Evals
 	sh.Flush()
 	st.Write(run.Out)
